@@ -62,16 +62,23 @@ def execute(sc):
     def step_delay(j):
         return steps[j] if j < len(steps) else 0.0
 
+    def alive_now():
+        return sum(len(p.alive_workers()) for p in rt.CExecutor.all_pools[pools_before:] if not p.module_level)
+
     def sync_gen():
         for j, x in enumerate(objs):
             if fail_at == j:
+                ctl.log('SrcFail', j=j, alive=alive_now())
                 raise the_exc
             d = step_delay(j)
             if d > 0:
                 ctl.sleep(d)          # a blocking synchronous producer
+            ctl.log('Produce', j=j, alive=alive_now())
             yield x
         if fail_at is not None and fail_at >= len(objs):
+            ctl.log('SrcFail', j=len(objs), alive=alive_now())
             raise the_exc
+        ctl.log('SrcEnd', j=len(objs), alive=alive_now())
 
     class Cls:
         def __init__(self):
@@ -102,17 +109,21 @@ def execute(sc):
     async def agen():
         for j, x in enumerate(objs):
             if fail_at == j:
+                ctl.log('SrcFail', j=j, alive=alive_now())
                 raise the_exc
             d = step_delay(j)
             if d > 0:
                 await asyncio.sleep(d)
+            ctl.log('Produce', j=j, alive=alive_now())
             yield x
         if fail_at is not None and fail_at >= len(objs):
+            ctl.log('SrcFail', j=len(objs), alive=alive_now())
             raise the_exc
+        ctl.log('SrcEnd', j=len(objs), alive=alive_now())
 
     def check(j, x):
         same = j < len(objs) and (x is objs[j] or (kind == 'range' and x == objs[j]))
-        ctl.log('Got', j=j, same=bool(same))
+        ctl.log('Got', j=j, same=bool(same), alive=alive_now())
 
     def finish():
         alive = 0
